@@ -922,12 +922,17 @@ impl Mp4TrackWriter {
             // mp4a.esds.es_desc.dec_config.max_bitrate
             // mp4a.esds.es_desc.dec_config.avg_bitrate
         }
-        if let Ok(stco) = StcoBox::try_from(self.trak.mdia.minf.stbl.co64.as_ref().unwrap()) {
-            self.trak.mdia.minf.stbl.stco = Some(stco);
-            self.trak.mdia.minf.stbl.co64 = None;
+        // The writer keeps its 64-bit chunk offset table (later calls still need it);
+        // only the returned box uses the 32-bit form when every offset fits.
+        let mut trak = self.trak.clone();
+        if let Some(ref co64) = trak.mdia.minf.stbl.co64 {
+            if let Ok(stco) = StcoBox::try_from(co64) {
+                trak.mdia.minf.stbl.stco = Some(stco);
+                trak.mdia.minf.stbl.co64 = None;
+            }
         }
 
-        Ok(self.trak.clone())
+        Ok(trak)
     }
 }
 
